@@ -50,8 +50,15 @@ FLAVOURS = {
                     skw={"nextProtos": [b"http/1.1", b"spdy/3"]}),
 }
 
-KEYBITS = {"rsa": 2048, "c_rsa": 2048, "rsapss": 2048, "dsa": 1024,
-           "c_dsa": 1024}
+def _keybits():
+    out = {}
+    for c in ("rsa", "c_rsa", "rsapss", "dsa", "c_dsa"):
+        chain, _ = W.load_cred(c)
+        out[c] = len(chain.getEndEntityPublicKey())
+    return out
+
+
+KEYBITS = _keybits()
 
 SIG_HASH = {1: "md5", 2: "sha1", 3: "sha224", 4: "sha256", 5: "sha384",
             6: "sha512"}
@@ -87,7 +94,7 @@ def sig_in_policy(st, alg, version):
 
 
 def policy_fails(who, st, conn, peer_cred, info, version, selected_alpn,
-                 offered_alpn, peer_uses_rsl=True):
+                 offered_alpn, peer_uses_rsl=True, cert_exchanged=True):
     """Negotiated parameters vs this side's own (validated) settings."""
     f = []
     if not (st.minVersion <= version <= st.maxVersion):
@@ -118,7 +125,7 @@ def policy_fails(who, st, conn, peer_cred, info, version, selected_alpn,
         if ok is False and version >= (3, 3):
             f.append("%s: signature algorithm %r outside policy" % (
                 who, conn.serverSigAlg))
-    if peer_cred in KEYBITS:
+    if peer_cred in KEYBITS and cert_exchanged:
         if not (st.minKeySize <= KEYBITS[peer_cred] <= st.maxKeySize):
             f.append("%s: peer key size %d outside [%d,%d]" % (
                 who, KEYBITS[peer_cred], st.minKeySize, st.maxKeySize))
@@ -188,11 +195,13 @@ def _work(item):
             sel = bytes(sel) if sel else None
             fails += policy_fails("client", cst_v, pair.c, fl.get("cred"),
                                   info, version, sel, alpn_c,
-                                  sst_v.record_size_limit is not None)
+                                  sst_v.record_size_limit is not None,
+                                  pair.c.session.serverCertChain is not None)
             fails += policy_fails("server", sst_v, pair.s,
                                   fl.get("client_cred"), info, version, sel,
                                   alpn_s,
-                                  cst_v.record_size_limit is not None)
+                                  cst_v.record_size_limit is not None,
+                                  pair.s.session.clientCertChain is not None)
             if pair.c.next_proto != pair.s.next_proto:
                 fails.append("NPN differs: %r %r" % (pair.c.next_proto,
                                                      pair.s.next_proto))
